@@ -53,7 +53,7 @@ def oracle(A, B, tol=1e-7):
     bad = []
     R = kabsch_rotation_matrix(A.copy(), B.copy())
     scale = max(1.0, (A * A).sum() + (B * B).sum())
-    if not np.allclose(R.T @ R, np.eye(3), atol=1e-8):
+    if not np.allclose(R.T @ R, np.eye(3), rtol=0, atol=1e-8):
         bad.append("returned matrix not orthogonal")
     if not abs(np.linalg.det(R) - 1) < 1e-8:
         bad.append("determinant %.6f != +1" % np.linalg.det(R))
@@ -62,7 +62,7 @@ def oracle(A, B, tol=1e-7):
     if dev > best + tol * scale:
         bad.append("squared deviation %.9g exceeds the optimum over proper rotations %.9g" % (dev, best))
     A2 = reorient_points(A.copy(), B.copy())
-    if not np.allclose(A2, A @ R, atol=1e-9 * scale):
+    if not np.allclose(A2, A @ R, rtol=0, atol=1e-9 * scale):
         bad.append("reorient_points != A.R")
     r = rmsd_points(A.copy(), B.copy())
     if abs(r * r * len(A) - best) > tol * scale:
@@ -84,7 +84,7 @@ def replay_dimer(data):
     R, t = d.transform_ab
     ca, cb = pa.mean(axis=0), pb.mean(axis=0)
     bad = []
-    if not np.allclose(t, cb - ca, atol=1e-9):
+    if not np.allclose(t, cb - ca, rtol=0, atol=1e-9):
         bad.append("translation != centroid difference")
     dev = (((pb - cb) @ R - (pa - ca)) ** 2).sum()
     best = horn_min_sq_dev(pb - cb, pa - ca)
